@@ -109,7 +109,8 @@ def gen_call(rng, refs_ok, tree_paths):
 
 def gen_one(rng, tier, index):
     from_file = index % 3 != 0
-    names = ['a', 'b', 'c', 'res', 'w1']
+    # (resource names are free text: hyphens, blanks, signs, non-ASCII)
+    names = ['a', 'b', 'c', 'res', 'w1', 'hi-fi', 'level 1', 'p+q', 'é']
     tree_paths = []
     for _ in range(rng.randint(1, 5)):
         depth = rng.randint(1, 4)
